@@ -29,7 +29,14 @@ SPEC = {
              # "never changes what is decoded and published": the real pipelines (read loop, pools, workers) with the real
              # mirror dispatchers and workers running; every published payload must still be the solo decode of its datagram
              {"kind": "pipeline", "quick": 60, "thorough": 1600, "runner": {"pkg": "./vflow", "test": "TestVerifPipeline", "race": False},
-              "env": {"VERIF_PIPE_MIRROR": "1"}}],
+              "env": {"VERIF_PIPE_MIRROR": "1"}},
+             # the same with unequal maximum datagram sizes for the two mirrored protocols (jumbo sFlow / jumbo IPFIX)
+             {"kind": "pipeline", "label": "pipeline-mirror-jumbo-sflow", "seed_offset": 61, "quick": 12, "thorough": 300,
+              "runner": {"pkg": "./vflow", "test": "TestVerifPipeline", "race": False},
+              "env": {"VERIF_PIPE_MIRROR": "1", "VERIF_PIPE_SIZES": "9000,1500"}},
+             {"kind": "pipeline", "label": "pipeline-mirror-jumbo-ipfix", "seed_offset": 67, "quick": 12, "thorough": 300,
+              "runner": {"pkg": "./vflow", "test": "TestVerifPipeline", "race": False},
+              "env": {"VERIF_PIPE_MIRROR": "1", "VERIF_PIPE_SIZES": "1500,9000"}}],
     "extra": [sweep],
     "rule": "real mirrorIPFIX/mirrorSFlow towards random 127/8 targets and ports, captured on a raw IPPROTO_UDP socket and a UDP "
             "listener; payload lengths 0..max biased to max-29..max for max in {64,1500,9000}, random contents and sources in 4- and "
